@@ -231,7 +231,7 @@ pub fn num_cases(ctx: &Ctx) -> u64 {
     match (ctx.mode, ctx.tier) {
         (Mode::Miri, _) => 24,
         (Mode::Asan | Mode::Tsan, _) => 1500,
-        (Mode::Native, Tier::Quick) => 30_000,
+        (Mode::Native, Tier::Quick) => 20_000,
         (Mode::Native, Tier::Thorough) => 800_000,
     }
 }
